@@ -263,7 +263,89 @@ def check_alignment(item):
     return out
 
 
+def proba_real(ctx, interp, args, kwargs):
+    k = z3.Int(ctx.fresh_name("pos_k"))
+    ctx.assume(z3.And(k >= 0, k < 2 ** 32))
+    ctx.recorded.append(("pos_k", k))
+    from vf.pysym.values import SReal
+    return SReal(z3.ToReal(k) / z3.RealVal(2 ** 32))
+
+
+def check_symbolic_weights(item):
+    """Obligation (5): ALL integer weight vectors of length n with 0 <= w_i < 2^16 (not all zero) and ALL hash
+    positions, in the exact regime: there every float operation of deterministic_choice is exact (k < 2^32 and
+    total < 2^20 give k * total < 2^53; prefix sums are integers below 2^53), so exact-real execution IS the binary64
+    execution; the side condition is itself put to the solver."""
+    n, timeout_ms = item
+    common.setup_path()
+    from vf.pysym.values import SInt
+    tally = Tally()
+    out = {"status": "ok", "witnesses": [], "paths": 0, "reach": 0, "validated": 0, "encoded": {}, "stubs": [],
+           "kind": "symbolic", "exact_boundaries": 0, "inexact_boundaries": 0, "part0": False, "vector": ["symbolic"] * n}
+    ws = [SInt(z3.Int("w%d" % i)) for i in range(n)]
+    bounds = [z3.And(w.term >= 0, w.term < 2 ** 16) for w in ws] + [z3.Sum([w.term for w in ws]) > 0]
+
+    def setup(it):
+        it.call_overrides["pyab_experiment.binning.binning:deterministic_proba"] = proba_real
+    run = api.run(api.call_module_function(BINNING, "deterministic_choice", [SStr(z3.String("input_id")), list(range(n)), ws]),
+                  opts={"float_mode": "real", "prune": True, "prune_timeout_ms": 5000}, setup=setup, assumptions=bounds)
+    out["paths"] = len(run.paths)
+    out["encoded"] = run.encoded_digest()
+    out["stubs"] = run.notes
+    W = [z3.IntVal(0)]
+    for w in ws:
+        W.append(W[-1] + w.term)
+    # exactness side condition
+    kk = z3.Int("k_side")
+    r, m = common.check(tally, bounds + [kk >= 0, kk < 2 ** 32, kk * W[n] >= 2 ** 53], timeout_ms,
+                        label="C03(5) exact regime: k * total < 2^53 for all bounded weights")
+    if r != "unsat":
+        out["status"] = "inconclusive"
+        out["note"] = "exactness side condition not discharged"
+    for p in run.paths:
+        if isinstance(p.outcome, Unsup):
+            r, m = common.check(tally, p.conds, timeout_ms)
+            if r != "unsat":
+                out["status"] = "inconclusive"
+                out["note"] = "unsupported: " + p.outcome.reason
+            continue
+        ks = [v for t, v in p.recorded if t == "pos_k"]
+        if isinstance(p.outcome, Raise):
+            r, m = common.check(tally, p.conds, timeout_ms, label="C03(5) valid symbolic weights raise")
+            if r == "sat":
+                wv = [m.eval(w.term, model_completion=True).as_long() for w in ws]
+                out["witnesses"].append(choice_witness([str(x) for x in wv], [float(x) for x in wv], 0, list(range(n)),
+                                                       "valid integer weights %s raise %s" % (wv, p.outcome.exc_name)))
+            continue
+        i = p.outcome.value
+        k = ks[0]
+        good = z3.And(W[i] * 2 ** 32 <= k * W[n], k * W[n] < W[i + 1] * 2 ** 32)
+        r, m = common.check(tally, list(p.conds) + [z3.Not(good)], min(timeout_ms, 30000),
+                            label="C03(5) symbolic integer weights, n=%d leaf %d: k outside [W_i, W_i+1) * 2^32 / W_n" % (n, i),
+                            keep_sample=(i == 0), _retry=False)
+        if r == "unknown":
+            out["status"] = "inconclusive"
+            out["note"] = "unknown on symbolic-weights leaf"
+        elif r == "sat":
+            wv = [m.eval(w.term, model_completion=True).as_long() for w in ws]
+            kv = m.eval(k, model_completion=True).as_long()
+            texts = [str(x) for x in wv]
+            out["witnesses"].append(choice_witness(texts, [float(x) for x in wv], kv,
+                                                   allowed_indices(wf.boundaries(texts), texts, kv),
+                                                   "integer weights %s: group %d selected outside its exact share" % (wv, i)))
+        r, m = common.check(tally, list(p.conds) + [k == 0] + [w.term == 1 for w in ws], timeout_ms)
+        if r == "sat":
+            out["reach"] += 1
+        elif i == 0:
+            out["status"] = "inconclusive"
+            out["note"] = "vacuity twin failed for the first leaf"
+    out["tally"] = tally
+    return out
+
+
 def _dispatch(a):
+    if a[0] == "symbolic":
+        return check_symbolic_weights(a[1:])
     if a[0] == "proba":
         r = C12.lemma_proba(a[1])
         r.update({"kind": "grid", "validated": 0, "exact_boundaries": 0, "inexact_boundaries": 0})
@@ -291,6 +373,8 @@ def main(tier):
                 items.append((v, False, timeout_ms, False, part))   # ints passed as ints (direct API use)
     for p in alignment_programs():
         items.append(("align", p, timeout_ms))
+    for n in ([1, 2, 3, 4] if tier == "quick" else [1, 2, 3, 4, 5, 6, 8]):
+        items.append(("symbolic", n, timeout_ms))
     # long vectors first (better load balance)
     results = common.pmap(_dispatch, items, chunksize=1)
     total = Tally()
@@ -329,6 +413,7 @@ def main(tier):
         "disagreements_checked": total.unsat + total.sat,
         "samples": total.samples[:4] or [{"note": "none"}],
         "weight_vectors": n_vec,
+        "symbolic_integer_weight_lengths": [r["vector"].__len__() for r in results if r["kind"] == "symbolic"],
         "alignment_programs": n_align,
         "paths": n_paths,
         "reachability_twins_passed": reach,
@@ -340,8 +425,10 @@ def main(tier):
         "stubs_used": sorted(stubs) + ["deterministic_proba replaced by k/2^32 for a fresh 32-bit k (justified by lemma L1 "
                                        "run in this check: proba(s) = top32(MD5)/2^32)"],
         "bounds": "per weight vector: all 2^32 hash positions, bit-precise binary64; vectors: %d members of the family "
-                  "(alphabet %s up to n=4, structured vectors up to n=64); symbolic weights are outside the claim "
-                  "(symbolic x symbolic fp.mul does not finish)" % (n_vec, wf.ALPHABET),
+                  "(alphabet %s up to n=4, structured vectors up to n=64); additionally ALL integer weight vectors with "
+                  "0 <= w_i < 2^16 for the listed lengths in the exact regime (side condition k*total < 2^53 discharged); "
+                  "symbolic decimal weights and integer weights >= 2^16 are outside the claim (symbolic x symbolic fp.mul does "
+                  "not finish)" % (n_vec, wf.ALPHABET),
     }
     common.write_evidence(PROP, "translation_validation", coverage,
                           ["reference partition uses the exact rationals of the declared decimal weights",
